@@ -1,0 +1,82 @@
+//go:build verif
+
+// Contracts for the contract-based verification in /verif (comment-only file).
+
+package dispatcher
+
+//@ import netip "net/netip"
+//@ import slayers "github.com/scionproto/scion/pkg/slayers"
+
+//@ # ---- C44: the shim never reflects traffic to unintended hosts.
+//@ # assumed (net/netip): Addr() is the address part of an AddrPort; Unmap is a function of the address;
+//@ # Compare returns 0 exactly for equal addresses
+//@ spec func unmapped(a netip.Addr) netip.Addr uninterpreted
+//@ extern (net/netip.AddrPort).Addr
+//@   modifies nothing
+//@   ensures result == p.ip
+//@ extern (net/netip.Addr).Unmap
+//@   modifies nothing
+//@   ensures result == unmapped(ip)
+//@ extern (net/netip.Addr).Compare
+//@   modifies nothing
+//@   ensures (result == 0) == (ip == ip2)
+
+//@ # destination derivation from the SCION/UDP resp. quoted SCMP packet: not interpreted (gopacket, service map)
+//@ extern net/netip.AddrPortFrom
+//@   modifies nothing
+//@   ensures result.ip == ip && result.port == port
+//@ func addrPortFromBytes
+//@   props C44
+//@   modifies nothing
+//@   ensures result1 == nil ==> result0.port == port
+//@ # a UDP/SCION packet goes to its own destination port on the SCION destination host, or (service destination) to whatever the service map holds - the map lookup itself is not interpreted
+//@ func (*Server).getDstSCIONUDP
+//@   props C44
+//@   requires s != nil
+//@   requires s.scionLayer.DstAddrType == slayers.T4Svc ==> len(s.scionLayer.RawDstAddr) == 4
+//@   modifies nothing
+//@   ensures result1 == nil && s.scionLayer.DstAddrType != slayers.T4Svc ==> result0.port == s.udpLayer.DstPort
+//@ func (*Server).getDstSCMP
+//@   trusted
+//@   modifies nothing
+
+//@ # ---- the layer decoders, the decoded-layer list and the serialize buffer live in the Server that is being run:
+//@ # `cur` names it, so that the assumed effects of the gopacket calls can be stated (they write the decoders registered
+//@ # with the parser - fields of the Server - and nothing else the function reads)
+//@ ghost var cur *Server
+//@ extern (*github.com/gopacket/gopacket.DecodingLayerParser).DecodeLayers
+//@   modifies *cur, arr(cur.decoded)
+//@   ensures cur.parser == old(cur.parser) && cur.outBuffer == old(cur.outBuffer) && cur.isDispatcher == old(cur.isDispatcher)
+//@   # the decoded SCION layer has raw addresses of the length their type says (postcondition of SCION.DecodeAddrHdr, C18)
+//@   ensures result == nil && cur.scionLayer.DstAddrType == slayers.T4Svc ==> len(cur.scionLayer.RawDstAddr) == 4
+//@ iface gopacket.SerializeBuffer.Clear
+//@   modifies nothing
+//@ iface gopacket.SerializeBuffer.PushLayer
+//@   modifies nothing
+//@ iface gopacket.SerializeBuffer.Bytes
+//@   modifies nothing
+//@ extern (github.com/gopacket/gopacket.Payload).SerializeTo
+//@   modifies nothing
+//@ extern (github.com/gopacket/gopacket.Payload).LayerType
+//@   modifies nothing
+//@ # re-serialization of the reply layers: fills the serialize buffer, may fix up length/checksum fields of the layer
+//@ extern (*github.com/scionproto/scion/pkg/slayers.SCMP).SerializeTo
+//@   modifies cur.scmpLayer
+//@ extern (*github.com/scionproto/scion/pkg/slayers.SCION).SerializeTo
+//@   modifies cur.scionLayer
+//@ extern (*github.com/scionproto/scion/pkg/slayers.EndToEndExtn).SerializeTo
+//@   modifies cur.e2e
+
+//@ # a packet leaves the shim (non-nil buffer, valid address) only (a) towards the previous hop - the rebuilt
+//@ # echo/traceroute replies, the only thing a non-dispatcher shim ever sends - or (b) unchanged, to a port on the very
+//@ # host address the datagram was addressed to
+//@ # building the reply (reversal of the SCION header, SCMP type) is not interpreted here
+//@ func (*Server).replyToSCMPInfoRequest
+//@   trusted
+//@   modifies s.scionLayer, s.scmpLayer
+//@ func (*Server).processMsgNextHop
+//@   props C44
+//@   requires s != nil && s == cur && s.parser != nil && s.outBuffer != nil
+//@   ensures result0 != nil && result1.ip.z.value != nil ==> result1 == prevHop || unmapped(result1.ip) == unmapped(underlay)
+//@   ensures result0 != nil && result1.ip.z.value != nil && result1 != prevHop ==> sameArray(result0, buf) && len(result0) == len(buf)
+//@   ensures result0 != nil && result1.ip.z.value != nil && !s.isDispatcher ==> result1 == prevHop
